@@ -7,7 +7,7 @@
 using namespace vh;
 using namespace dm;
 
-static const double T0 = 1577872800.0;   // 2020-01-01T10:00:00Z, the harness' initial "now"
+static double T0 = 1577872800.0;   // 2020-01-01T10:00:00Z, the harness' initial "now" unless the script starts the clock elsewhere (NOW t)
 
 struct Op { std::string kind; unsigned peer = 1000; std::string uid, ics; double dt = 0, late = 0.001; int which = 0; };
 
@@ -43,6 +43,7 @@ static Verdict judge_script(const std::string &script, std::vector<std::string> 
 		if (ln.compare(0, 7, "SUBMIT ") == 0) { unsigned peer; size_t ch, n; sscanf(ln.c_str() + 7, "%u %zu %zu", &peer, &ch, &n); SOp o; o.kind = "SUBMIT"; o.peer = peer; o.ics = script.substr(p, n); p += n + 1; ops.push_back(o); }
 		else if (ln.compare(0, 4, "ADV ") == 0) { SOp o; o.kind = "ADV"; sscanf(ln.c_str() + 4, "%lf %lf", &o.to, &o.late); ops.push_back(o); }
 		else if (!ln.empty()) { SOp o; o.kind = ln.substr(0, ln.find(' ')); ops.push_back(o); } } }
+	T0 = 1577872800.0; { size_t np = script.find("\nNOW "); if (np != std::string::npos && np < 64) T0 = atof(script.c_str() + np + 5); }
 	double tend = T0; for (auto &o : ops) if (o.kind == "ADV") tend = std::max(tend, o.to + o.late);
 	std::string spool = make_spool(); if (spool.empty()) return Verdict::inconclusive("no spool");
 	Trace tr = run_session(spool, script, 30.0);
@@ -145,7 +146,11 @@ void prop_gen(Ctx &c) {
 		if (c.shrink_exhausted()) return;
 		auto h = *genHist; size_t nops = 4 + (size_t)*R(0, maxops - 3);
 		std::string script = "USERS 1000 1001\n";
-		double now = T0; int nuids = 0; bool with_restart = *R(0, 3) == 0;   // such histories avoid RDATE events: the queue file does not keep them (C05's open finding rt_rdate)
+		// the clock starts on new year's day 2020 or shortly before a date the calendar arithmetic has to get right (end of February in leap and common years, a year's end, a century year is out of the daemon's reach)
+		static const double BASES[] = {1577872800.0, 1582934100.0 /*2020-02-28T23:55*/, 1709164800.0 /*2024-02-29T00:00*/, 1614556500.0 /*2021-02-28T23:55*/, 1609458900.0 /*2020-12-31T23:55*/, 1583020500.0 /*2020-02-29T23:55*/};
+		int bsel = *R(0, 12); double base = bsel < 6 ? BASES[bsel] : BASES[0];
+		if (base != BASES[0]) { char nb[64]; snprintf(nb, sizeof nb, "NOW %.3f\n", base); script += nb; }
+		double now = base; int nuids = 0; bool with_restart = *R(0, 3) == 0;   // such histories avoid RDATE events: the queue file does not keep them (C05's open finding rt_rdate)
 		static const char *F[] = {"SECONDLY", "MINUTELY", "HOURLY", "DAILY"}; static const int UNIT[] = {1, 60, 3600, 86400};
 		for (size_t i = 0; i < nops && i < h.size(); i++) {
 			auto &o = h[i]; int sel = std::get<0>(o);
